@@ -16,7 +16,8 @@ def run():
     driver.run(b)
     sz = driver.sizes(b.tier)
     cov = b.coverage(
-        rule=f"three families of PPTable descriptions, each rendered once with no_color and checked line by line. "
+        rule=f"five families. Families A-C: PPTable descriptions, each rendered once with no_color and checked line "
+             f"by line. "
              f"(A, exhaustive) every value of a {len(driver.VALUES)}-value pool (ints, None, bools, floats, strings "
              f"with '|', '+', '-', blanks, long strings) and every enum cell (3 enum types x 4 modifiers x declared / "
              f"undeclared / None values) x width specs {{0,1,2,3,4,5,8,len-1,len,len+1,0-3,2-8,1-999,3-3,default}} x "
@@ -28,9 +29,25 @@ def run():
              f"columns x {len(driver.WIDTHS)} width specs (default, fixed 0..8, ranged, min=max) x break-by x enum "
              f"modifiers x header/footer {{none, empty, short, over-long}} x limits x multi-line/numeric titles x "
              f"record shapes (tuples+fields, namedtuples, value paths, attributes). "
-             f"non-trivial = the table shows at least one truncated record cell, break line or skipped-records line",
+             f"Families D-E: several tables whose lazily generated lines (iterating table.ch_text(no_color=True)) "
+             f"are pulled interleaved; every table is also printed on its own (fresh object) and the same per-table "
+             f"oracle is applied to the lines obtained either way. Schedules: zip (one line of each table in turn), "
+             f"half (k lines of the first table, the other tables printed completely, the rest of the first), seeded "
+             f"random order of pulls. "
+             f"(D, exhaustive) every ordered pair (narrow 2-column table, wide 3-column table), both with a break-by "
+             f"column: record counts {sz['il_ns']} x every pattern of break-by value changes x limits "
+             f"{sz['il_limits']} on either side x {{zip, half k=1,4,6; wide table first: zip, half k=5}}; "
+             f"(E, seeded random.Random('C12:interleaved:seed:chunk'), {sz['il_random']} cases) 2 (15%: 3) tables of "
+             f"family C, 12% of the further entries the same table object again, schedule zip 40% / half k=1..9 35% / "
+             f"random order 25%. "
+             f"non-trivial = the table (families D-E: at least one of the tables, with a second generator started "
+             f"before the first one was exhausted) shows at least one truncated record cell, break line or "
+             f"skipped-records line; reach event 'interleaved-service-lines' = two different tables that both have "
+             f"break / skipped-records lines and differ in width or number of skipped records, the second started "
+             f"before the first yields one of those lines",
         exhaustive=False,
-        extra={'families': {'A_cells': 'exhaustive', 'B_accounting': 'exhaustive', 'C_random': 'seeded'}})
+        extra={'families': {'A_cells': 'exhaustive', 'B_accounting': 'exhaustive', 'C_random': 'seeded',
+                            'D_interleaved_pairs': 'exhaustive', 'E_interleaved_random': 'seeded'}})
     cov.update(ppart)
     _seen, _viol = set(), []
     for _v in pv + b.violations():
@@ -52,5 +69,8 @@ def run():
                    "the number announced on the skipped-records line is read only when it is completely "
                    "visible (followed by a character other than a digit or a dot); at small widths the line is "
                    "truncated to dots by design",
+                   "interleaved generation: at most 3 tables, all with no_color (one palette), built independently "
+                   "(no FieldType object shared between two tables); a table is not modified (fmt, records) while "
+                   "one of its line generators is alive",
                    "bounded: <= %d records (family B), <= 12 records and <= 5 columns (family C)" % sz['max_n']],
                   t0)
